@@ -174,7 +174,7 @@ func c09demuxIP(d util.Message, proto uint8, icmpProto uint8) {
 }
 
 func VerifC09_IPv6() {
-	nchains := 8
+	nchains := 10
 	if vr.Thorough() {
 		nchains = len(ipv6Chains)
 	}
